@@ -9,7 +9,7 @@ theorem specConv_no_panic (c : Code) (w : Nat) (p : Option Nat) (v : Val) :
     FormatSpec.conv c w p v ≠ .error .panic := by
   intro h
   unfold FormatSpec.conv at h
-  simp only [FormatSpec.needNum, FormatSpec.lookupDig, bind, Except.bind, pure, Except.pure, throw,
+  simp only [FormatSpec.needNum, bind, Except.bind, pure, Except.pure, throw,
     throwThe, MonadExceptOf.throw] at h
   repeat' split at h
   all_goals first | cases h | skip
@@ -36,8 +36,9 @@ theorem formatCode_nonnum (v : Val) (c : Code) (w : Nat) (p : Option Nat)
   rcases hb with h | h <;> rw [h] <;> simp [Except.map]
 
 /-- `format_code` never reaches one of its panic sites (`u16` additions of `render_integer` /
-    `render_float`), for every value, conversion, flag set, width and precision; numbers are finite
-    doubles (integer part below 2^1024) with digit data the pipeline can produce. -/
+    `render_float_digits`), for every value, conversion, flag set, width and precision; numbers are
+    finite doubles (integer part below 2^1024) on which Rust's float formatting — the source of the
+    digit text of e/f/g since the round-5 repair — is exact (`OracleOK`). -/
 theorem formatCode_no_panic (v : Val) (c : Code) (w : Nat) (p : Option Nat)
     (hv : ∀ n d, v = .num n d → n.whole < DBL_BOUND ∧ OracleOK n) :
     formatCode v c w p ≠ .error .panic := by
